@@ -14,7 +14,8 @@ CLAIM = {
           "stream returns (C07_same_as_fresh). Errors are compared by class with io.EOF and io.ErrUnexpectedEOF as one class (known finding eof_kind_depends_on_chunking); errors "
           "are sticky until Reset. Reset(r, opts...) leaves exactly a new decoder on r -- byte counter, buffer, tables, clock, accumulators, error, header-once flag -- so "
           "after Reset EVERY entry point answers as on a decoder that was never used (C07_reset_is_new, C07_after_reset_every_entry_point_as_fresh; rests on what reset() "
-          "and Reset() clear in the source, the byte counter included, translated on every run). Per run: API histories (incl. pooled decoders whose previous reader was empty) against the model and the Go history-vs-fresh oracle.",
+          "and Reset() clear in the source, the byte counter included, translated on every run). PeekFileId never leaves the decoder beyond the end of the sequence it peeks into, also when a message straddles the end of a corrupted sequence "
+          "(C07_peekfileid_stays_inside, since fix 7fda71f). Per run: API histories (incl. DecodeWithContext under a cancelled context, predecessors cut short inside a message,  pooled decoders whose previous reader was empty) against the model and the Go history-vs-fresh oracle.",
   "note": NOTE_COMMON + " Reader = contiguous bytes.Reader (arbitrary chunkings: C08). Sequences consumed with checksums ignored whose records overrun the declared data size "
           "are outside the statement (the start of the next sequence is then undefined)."}
 
